@@ -39,6 +39,9 @@ pub struct Round {
 #[derive(Clone, Debug, PartialEq, Eq, Serialize, Deserialize, Default)]
 pub struct ConcCase {
     pub scenario: String,
+    /// durabilities given to input fields before the first round (input, field, durability)
+    #[serde(default)]
+    pub field_durs: Vec<(u16, u8, crate::prog::Dur)>,
     pub rounds: Vec<Round>,
     pub sched_seed: u64,
     /// "random" | "pct" | "rr"
@@ -161,10 +164,15 @@ mod imp {
         let conc = case.conc.clone().unwrap();
         let mut world: World = (&case.world).into();
         let mut db = SimDatabase::new(&case.prog, &world);
+        for (i, f, d) in &conc.field_durs {
+            let v = world.ins[*i as usize][*f as usize];
+            db.set_in(*i as usize, *f as usize, v, Some(*d));
+        }
         if let Some(k) = case.panic_at {
             fault::arm(k);
         }
         let queryable: Vec<usize> = (0..case.prog.nodes.len()).filter(|i| case.prog.nodes[*i].kind.keyed_by_node() || case.prog.nodes[*i].kind == Kind::Zero).collect();
+        let mut rounds_done = 0usize;
         for round in &conc.rounds {
             let mut log = RoundLog { pre: Some(world.clone()), ..Default::default() };
             let mut handles = vec![];
@@ -221,7 +229,13 @@ mod imp {
             // (not after a round that only performs a joined write: the next round must find the
             // memos of the previous revision, otherwise nothing is left to re-validate concurrently)
             let verify_now = !round.readers.is_empty();
-            for n in queryable.iter().rev().take(if verify_now { 6 } else { 0 }) {
+            let mut order: Vec<usize> = queryable.iter().rev().copied().collect();
+            if !order.is_empty() {
+                let k = (conc.sched_seed as usize).wrapping_add(rounds_done) % order.len();
+                order.rotate_left(k);
+            }
+            rounds_done += 1;
+            for n in order.iter().take(if verify_now { 7 } else { 0 }) {
                 let o = match catch_unwind(AssertUnwindSafe(|| observe(&db, *n, 0, false))) {
                     Ok(o) => Outc::Val(o),
                     Err(p) => Outc::Panic(panic_kind(&p)),
@@ -306,7 +320,13 @@ mod imp {
         let logs = logs.lock().unwrap_or_else(|e| e.into_inner()).clone();
         let prog = &case.prog;
         let faulty = case.panic_at.is_some();
+        // (type, value) -> (id, index of the last reader round that interned it)
+        let mut last_interned: HashMap<(usize, u32), (u64, usize)> = HashMap::new();
+        let mut reader_round = 0usize;
         for (ri, (round, log)) in conc.rounds.iter().zip(logs.iter()).enumerate() {
+            if !round.readers.is_empty() {
+                reader_round += 1;
+            }
             out.revisions += 1;
             let pre = log.pre.as_ref().unwrap();
             let post = log.post.as_ref().unwrap();
@@ -387,6 +407,12 @@ mod imp {
                         }
                         (Req::Intern { .. }, Outc::Interned { t, v, id, back }) => {
                             out.bump("interned_outside");
+                            if let Some((old, rr)) = last_interned.get(&(*t, *v)) {
+                                if *t >= 1 && *rr + 1 == reader_round && old != id {
+                                    out.viol("interned_identity_lost", ri, format!("type {t} value {v} was interned in the previous revision as {old:#x} and now as {id:#x}"));
+                                }
+                            }
+                            last_interned.insert((*t, *v), (*id, reader_round));
                             if back != v {
                                 out.viol("value_mismatch", ri, format!("interned {v}, read back {back}"));
                             }
@@ -434,6 +460,16 @@ mod imp {
                         }
                     }
                     Ev::Intern { t, v, id, .. } => {
+                        // a value used in the previous active revision keeps its identity for
+                        // every type that retains for at least two revisions
+                        if let Some((old, rr)) = last_interned.get(&(*t, *v)) {
+                            if *t >= 1 && *rr + 1 == reader_round && old != id {
+                                out.viol("interned_identity_lost", ri, format!("type {t} value {v} was interned in the previous revision as {old:#x} and now as {id:#x}"));
+                            } else if *t >= 1 && *rr + 1 == reader_round {
+                                out.bump("interned_identity_kept_across_revisions");
+                            }
+                        }
+                        last_interned.insert((*t, *v), (*id, reader_round));
                         if let Some(old) = intern_probe.insert((*t, *v), *id) {
                             if old != *id && !has_writer {
                                 out.viol("interned_not_canonical", ri, format!("type {t} value {v}: handles {old:#x} and {id:#x} within one revision (inside queries)"));
